@@ -5,6 +5,13 @@
 //   MODE 3 (C20): c1 from any invariant state then clear(); c2 freshly constructed with the configured TTL; two further
 //                 symbolic calls on both: results and abstract states agree.
 #include CONT_HDR
+// range methods 24..27 are the iterator-pair overloads of 20..23 (fifo_cache only, see ranges.hpp)
+#if defined(RMETHOD) && RMETHOD >= 24 && RMETHOD <= 27
+#define RANGE_ITER_FORM 1
+#define RMETHOD_EFF (RMETHOD - 4)
+#else
+#define RMETHOD_EFF RMETHOD
+#endif
 #include "clauses.hpp"
 #include "exec.hpp"
 #include "ranges.hpp"
@@ -87,12 +94,12 @@ extern "C" int harness()
     Ev e[RMAX];
     for (int i = 0; i < RMAX; ++i)
     {
-        sym_ev(e[i], RMETHOD, now);
+        sym_ev(e[i], RMETHOD_EFF, now);
         record_ev(i, e[i]);
     }
     record_pre(pre);
     __vf_set_now(now);
-    range_vs_singles(c1, c2, RMETHOD, e, RLEN, e[0].a, e[0].pk, pre, now);
+    range_vs_singles(c1, c2, RMETHOD_EFF, e, RLEN, e[0].a, e[0].pk, pre, now);
     last_now = now;
     VF_P(0, 3, inv(c1));
     VF_REACH(1);
